@@ -251,9 +251,17 @@ impl SpillPoolSink {
 
         // Append the batch
         if let Some(ref mut writer) = file_shared.writer {
-            writer.append_batch(batch)?;
             // make sure we flush the writer for readers
-            writer.flush()?;
+            let result = writer.append_batch(batch).and_then(|_| writer.flush());
+            if let Err(e) = result {
+                // This file is not placed back in the `open_write_files` queue, so no writer
+                // will ever append to it or finish it. Mark it as finished so the reader does
+                // not wait forever on it; batches written earlier remain readable.
+                file_shared.writer = None;
+                file_shared.writer_finished = true;
+                file_shared.wake();
+                return Err(e);
+            }
             file_shared.batches_written += 1;
             file_shared.estimated_size += batch_size;
         }
@@ -265,13 +273,16 @@ impl SpillPoolSink {
 
         if max_file_size_reached {
             // Finish the IPC writer
-            if let Some(mut writer) = file_shared.writer.take() {
-                writer.finish()?;
-            }
-            // Mark as finished so readers know not to wait for more data
+            let finish_result = match file_shared.writer.take() {
+                Some(mut writer) => writer.finish().map(|_| ()),
+                None => Ok(()),
+            };
+            // Mark as finished so readers know not to wait for more data. This must also
+            // happen when finishing failed: the file will never be written to again.
             file_shared.writer_finished = true;
             // Wake reader waiting on this file (it's now finished)
             file_shared.wake();
+            finish_result?;
 
             // Don't place `write_file` back in the `open_write_files` queue so we don't
             // try writing to it again
